@@ -193,6 +193,8 @@ def run(P, R, L):
              "flush failure into lost acknowledged writes)")
     from .c11 import grd5
     grd5(P, R, L)
+    K.pair10_builder_slot(P, R, L)
+    R.clause("PAIR-10", "a failed finalize of a compaction output leaves the state consistent (builder removed) so the error can be recorded")
     R.clause("PAIR-2", "followers receive the group's result before being notified; the leader returns the same result")
     K.pair2_group_result(P, R, L)
     K.ord2_write_ahead(P, R, L, rule="ORD-2")
